@@ -5,6 +5,30 @@ import json, os, subprocess, sys
 ROOT = os.path.dirname(os.path.dirname(os.path.abspath(__file__)))
 
 CHECKS = {
+ "C01": dict(cat="exploration", tech="round-trip monitor d->M1->D1->M2->D2->M3->D3 on both API paths over generated, corpus and mutated DSL",
+   text="Every accepted full-model text among 10^4-10^6 generated layouts, corpus files and accepted token-level mutants is pushed through render/parse three times on the in-memory and the JSON-string path; equality and byte stability are asserted on each.",
+   note="Trusted: proto.Equal; reading of 'modulo surrounding/trailing whitespace' in DESIGN 7-a.", ref="5/C01"),
+ "C02": dict(cat="exploration", tech="reference-predicate monitor (expressibility + normal form) over random and exhaustively enumerated rewrite trees",
+   text="Success of JSON->DSL compared with an independent expressibility predicate, the error text, and re-parse compared with the normal form, on random whole models and on every rewrite tree up to 6 (quick) / 7 (thorough) nodes.",
+   note="Trusted: predicate and normal form in cmd/vcheck/c02.go (written from the statement); domain limited to texts the lexer can carry (DESIGN 7).", ref="5/C02"),
+ "C03": dict(cat="exploration", tech="independent renderer + model-as-written oracle; random and exhaustive (odometer) layout enumeration",
+   text="From one AST the harness derives the model that was written and grammar-permitted renderings; the parser's result is compared on 10^4-10^5 random layouts and on the complete reduced layout space of tiny ASTs.",
+   note="Trusted: renderer internal/gen/dslrender.go (cross-checked against the .g4 by the Earley recogniser in C19).", ref="5/C03"),
+ "C07": dict(cat="exploration", tech="merge oracle (conflict predicate + expected attributed union from the ASTs) over generated module file sets with injected conflicts",
+   text="Success <=> oracle says conflict-free; on success proto.Equal with the expected attributed union and GetModuleForObjectTypeRelation; on conflict nil model, demanded errors naming an acceptable file.",
+   note="Trusted: oracle in cmd/vcheck/merge.go; conflicts involving broken files are not individually demanded (DESIGN 7-j).", ref="5/C07"),
+ "C09": dict(cat="fault_enumeration", tech="injection monitor: catalogue of structural violations x sites x layouts, plus token-stream converse on accepted mutants",
+   text="12 kinds of single structural violations injected at random sites (quick) and at every site (share of ASTs) of generated valid documents under random layouts; each must be rejected with nil model by all three DSL entry points.",
+   note="Trusted: injection engine and the token-stream declaration counter (uses the real lexer).", ref="5/C09"),
+ "C12": dict(cat="exploration", tech="history/metamorphic monitor: repeat-equality and all-permutation equality of merge results",
+   text="Each generated file set is merged 12-40 times (map orders) and under every permutation of <=4 files; results and ordered error tuples compared.",
+   note="Map iteration orders are sampled, not enumerated.", ref="5/C12"),
+ "C14": dict(cat="exploration", tech="metamorphic monitor (repeats, JSON re-encodings, type shuffles) + documented-order predicate + comment-strip equality",
+   text="Output bytes compared across repeats, shuffled JSON encodings and type orders; order of types/relations/conditions/parameters checked against the documented rule; source-info variant stripped of comments must equal the plain output and parse to the same model.",
+   note="Trusted: order predicate written from the documentation; K4 (line break in a file name) recognised by its signature.", ref="5/C14"),
+ "C16": dict(cat="exploration", tech="position monitors: bounds on every reported position, exact renderer marks for listener errors, declaration-site sets for merge conflicts (bug-compatible oracle for K2)",
+   text="Bounds of every position in every error for 10^4-10^5 rejected inputs; exact position for 5 injection kinds under random layouts; merge-conflict file+line against the set of declaration sites, deviations equal to the naive lookup counted as known finding K2.",
+   note="Trusted: renderer marks; K2 signature = reported line equals first-prefix-match lookup.", ref="5/C16"),
  "C04": dict(cat="exploration", tech="reference-model monitor (fixpoint reach sets + longest walk) over real Build, repeated and under hook-enumerated start orders",
    text="Every node and edge weight map of every accepted build is compared with an independent reference model on 10^4-10^5 generated models x (repeated builds + enumerated depth-first start orders); held on what was observed, not a proof.",
    note="Trusted: reference model internal/ref/wgraph.go (~400 lines), generator constraints of DESIGN 7-b; hook VerifAssignWeightsInOrder repeats ~25 lines of AssignWeights (fidelity guarded, DESIGN 4).", ref="5/C04"),
